@@ -282,7 +282,16 @@ func (m *BigMap) get(key Object) (Object, bool, int) {
 	return m.kv[i].Value, true, i
 }
 
+// unshare gives the map storage of its own before it is changed, if a rest() or a range of it (or the map it is one of) may still use it.
+func (m *BigMap) unshare() {
+	if m.shared {
+		m.kv = slices.Clone(m.kv)
+		m.shared = false
+	}
+}
+
 func (m *BigMap) Set(key, value Object) Map {
+	m.unshare()
 	kv := keyValuePair{Key: key, Value: value}
 	i, ok := slices.BinarySearchFunc(m.kv, kv, CompareKeys)
 	if ok {
@@ -335,7 +344,10 @@ func (m *BigMap) Rest() Object {
 	}
 	nl := len(m.kv) - 1
 	if nl > MaxSmallMap {
-		return &BigMap{kv: m.kv[1:]}
+		// Same storage, copied by whichever of the two is changed first (Set and Delete work in place:
+		// on shared storage they would also shift the pairs of the other map).
+		m.shared = true
+		return &BigMap{kv: m.kv[1:], shared: true}
 	}
 	res := SmallMap{len: nl}
 	copy(res.smallKV[:nl], m.kv[1:])
@@ -345,7 +357,8 @@ func (m *BigMap) Rest() Object {
 func (m *BigMap) Range(l, r int64) Object {
 	nl := r - l
 	if nl > MaxSmallMap {
-		return &BigMap{kv: m.kv[l:r]}
+		m.shared = true // (like Rest)
+		return &BigMap{kv: m.kv[l:r], shared: true}
 	}
 	res := SmallMap{len: int(nl)}
 	copy(res.smallKV[:nl], m.kv[l:r])
@@ -357,6 +370,7 @@ func (m *BigMap) Delete(key Object) (Map, bool) {
 	if !found {
 		return m, false
 	}
+	m.unshare()
 	copy(m.kv[idx:], m.kv[idx+1:])
 	m.kv = m.kv[:len(m.kv)-1]
 	return m, true
@@ -1135,7 +1149,8 @@ type SmallMap struct {
 
 // Sorted KV pairs, O(n) insert O(log n) access/same key mutations.
 type BigMap struct {
-	kv []keyValuePair
+	kv     []keyValuePair
+	shared bool // kv is (part of) the storage of another map too, see Rest.
 }
 
 type Map interface {
